@@ -24,19 +24,19 @@ MODES_BY_PROP = {
     # C06 holds for ALL op sequences of the model (faults included): fault modes and resubmission get half shares
     "C06": ["plain", "busy", "local", "plain", "busy", "local", "faults", "batchfaults", "flaky", "resubmit"],
     "C09": ["plain", "busy", "cancel"], "C11": ["faults", "faults", "faults", "nodefaults"],
-    "C12": ["batchfaults", "batchfaults", "batchfaults", "nodefaults"], "C14": ["cancel"],
-    "C16": ["hooks", "hooks", "hookslocal"], "C13": ["resubmit"], "C07": ["resubmit"], "C08": ["plain", "busy"],
+    "C12": ["batchfaults", "batchfaults", "batchfaults", "nodefaults", "flaky"], "C14": ["cancel"],
+    "C16": ["hooks", "hooks", "hookslocal", "flaky"], "C13": ["resubmit"], "C07": ["resubmit"], "C08": ["plain", "busy"],
 }
 # modes added to a property's list on top of its original ones: the original modes keep their number of cases
 ADDED_MODES = {"C01": ("resubmit",), "C02": ("resubmit", "nodefaults"), "C06": ("faults", "batchfaults", "flaky", "resubmit"),
-               "C11": ("nodefaults",), "C12": ("nodefaults",)}
+               "C11": ("nodefaults",), "C12": ("nodefaults", "flaky"), "C16": ("flaky",)}
 # share of the scenarios of a mode in which submission groups ask for a multi-node allocation (fault-free modes only)
 MULTINODE_MODES = {"plain": .2, "busy": .2, "hooks": .3, "batchfaults": .15}
 NODEKINDS = ("node", "worker")
 MAX_USER_TRYSUBMITS = 10
 MAX_OPS = 1500
 # modes in which the fake scheduler may list a live batch under a state word outside JADE's table
-ODD_STATE_MODES = ("plain", "busy", "cancel", "resubmit")
+ODD_STATE_MODES = ("plain", "busy", "cancel", "resubmit", "batchfaults")
 SLOWEXT_MODES = ("plain", "busy", "batchfaults")
 # batches are lost (failed sbatch, dead node, node runner killed by a filesystem fault), nothing else goes wrong:
 #   batchfaults - sbatch fails / nodes are lost;  nodefaults - lock timeout / quota error when a NODE appends a result
@@ -205,6 +205,13 @@ def gen_scenario(rng, mode):
     if mode in ("hooks", "hookslocal"):
         sc["lifecycle"] = {k: f"hook {k}" for k in ("setup", "teardown", "node_setup", "node_teardown") if rng.random() < .6}
         sc["hook_rc"] = {k: rng.choice([0, 0, 3]) for k in ("teardown", "node_teardown")}
+    if mode == "flaky":
+        # lifecycle commands under transient scheduler failures (C16: "runs exactly once each time the submission
+        # completes ... after every job has an outcome"); a stream of its own, the scenarios are otherwise unchanged
+        r3 = random.Random("life" + json.dumps(sc, sort_keys=True))
+        if r3.random() < .6:
+            sc["lifecycle"] = {k: f"hook {k}" for k in ("setup", "teardown", "node_setup", "node_teardown") if r3.random() < .7}
+            sc["hook_rc"] = {k: r3.choice([0, 0, 3]) for k in ("teardown", "node_teardown")}
     if mode in ("local", "hookslocal"):
         sc["local"] = True
         sc["groups"] = sc["groups"][:1]
@@ -980,7 +987,7 @@ class Run:
                 self.check_final_results(results, "C11")
         if mode == "cancel":
             self.check_cancel(tr, rows, complete, results)
-        if mode in ("hooks", "hookslocal"):
+        if mode in ("hooks", "hookslocal") or (mode == "flaky" and sc.get("lifecycle")):
             self.check_hooks(tr, complete)
         self.complete = complete
         self.results = results
